@@ -37,10 +37,10 @@ EXPLANATION = (
     'holds, YAML is entered only from AFTER_TEST) plus the prefix table (YAML only for version >= 13 on a YAML-start line, end / '
     'body / unterminated rows) and "every test-line row ends in AFTER_TEST, nothing else writes it"; R2 event constructors and '
     'operand roles per row for test / plan / Bail out / version / unknown / end-of-stream and the seven parse_test rows, the six '
-    'line forms denoted by the regex constants (group roles from the regex structure, specification samples, pairwise disjoint; the number groups of the test / plan / version patterns match ASCII digits only - no \\d without the ASCII flag), '
+    'line forms denoted by the regex constants (group roles from the regex structure, specification samples, pairwise disjoint; a directive group that also captures a word that is neither SKIP... nor TODO - e.g. TODOS, TODO-later - is reported; the number groups of the test / plan / version patterns match ASCII digits only - no \\d without the ASCII flag), '
     'parse/parse_async pass every line then exactly one EOF (second call, chained None marker, or a private pass-through generator that yields the marker); R3 per-row effect shapes num_tests+1 once, last_test := last_test+1 '
     'if the number group is None else int(group), highest_test := max(highest_test, new last_test), beyond-plan test is '
-    'plan.num_tests < new last_test, lineno+1 once, and the retention clause (if a test number is used only for last_test, the running maximum, the plan bound and the Test event, duplicates with count == maximum cannot be reported); R4 int() fed by a capture group whose language is an unbounded digit run must (and text conversion of a number that can be such an int + 1 must) '
+    'plan.num_tests < new last_test, lineno+1 once, and the retention clause (if a test number is used only for last_test, the running maximum, the plan bound and the Test event, duplicates with count == maximum cannot be reported; a running sum `field += number` is one more scalar: `1,1,4,4` and `1,2,3,4` agree on count, maximum and sum); R4 int() fed by a capture group whose language is an unbounded digit run must (and text conversion of a number that can be such an int + 1 must) '
     'be guarded by a ValueError handler (CFG), group indices exist, optional groups / self.plan / Optional parameters are only '
     'dereferenced under a guard atom, constructor arity, no reachable raise; R5 the is_bad set and the verdict fold as decision '
     'tables over event-kind atoms with constant propagation of the verdict local. NOT decided: numeric behaviour of the counters '
@@ -162,6 +162,7 @@ class Facts:
     def normal(self, owner: str = PARSER) -> Normal:
         n = Normal(owner, self.text_const, self.display_of)
         n.nonnull = self.is_enum_member
+        n.records = dict(self.tuples)
         return n
 
     def is_enum_member(self, text: str) -> bool:
@@ -1163,6 +1164,7 @@ def _check_retention(m: Model, tab: tables.Table, sec: Section) -> None:
     f = m.f
     uses: T.Dict[str, ast.AST] = {}
     other: T.List[str] = []
+    sums: T.Set[str] = set()
     nrows = 0
     for r_ in tab.rows:
         r = T.cast(Row, r_)
@@ -1199,6 +1201,11 @@ def _check_retention(m: Model, tab: tables.Table, sec: Section) -> None:
                 uses['last_test := number (overwritten by the next test line)'] = sec.node
             elif chain == 'self.highest_test' and ((isinstance(val, ast.Call) and norm(val.func) == 'max') or norm(val) == nl):
                 uses['running maximum'] = sec.node
+            elif chain not in ('self.num_tests', 'self.lineno') and isinstance(val, ast.BinOp) and isinstance(val.op, ast.Add) \
+                    and {norm(val.left), norm(val.right)} & (nls | set(explicit)) and chain in (norm(val.left), norm(val.right)):
+                # `field := field + number`: a running sum - one more scalar, equal for multisets of equal sum
+                uses[f'running sum ({chain} := {chain} + number)'] = sec.node
+                sums.add(chain)
             else:
                 other.append(f'{chain} := `{short(val, 60)}`')
         for e in r.effs(own=True):
@@ -1216,6 +1223,13 @@ def _check_retention(m: Model, tab: tables.Table, sec: Section) -> None:
                 other.append(f'end-of-stream condition `{a!r}`')
     if other:
         m.ok('C18.R3', f'{tab.name}: test numbers are also used by {sorted(set(other))[:3]}: more than count and maximum is retained')
+        return
+    if sums:
+        m.diff('C18.R3', 'test numbers: only their count, maximum and sum are retained',
+               f'the explicit number of a test line is used only as: {sorted(uses)}; end of stream reads the count, the maximum and the running sum '
+               f'{sorted(sums)}. So the streams `ok 1, ok 1, ok 4, ok 4` and `ok 1, ok 2, ok 3, ok 4` (count 4, maximum 4, sum 10) reach the same parser '
+               f'state and yield the same end-of-stream events: duplicated and missing numbers that cancel in the sum produce no Error event '
+               f'(property: "duplicate or missing numbers ... each produce an error"); a set of the numbers seen is needed', sec.node)
         return
     m.diff('C18.R3', 'test numbers: only their count and maximum are retained',
            f'the explicit number of a test line is used only as: {sorted(uses)}; end of stream compares highest_test with num_tests. So the streams '
